@@ -60,6 +60,7 @@ PROBES = [
     "final_short_block", "refill_beyond_first_read", "negative_word", "qlpc_nonzero_coffset",
     "bitshift_v2_mean", "version_1", "skip_bytes", "ulaw_raw_codes", "shipped_vector", "body_ends_at_read_boundary",
     "pipe", "decode_after_failed_decode", "cut_next_to_1k_boundary_beyond_first_read",
+    "decode_after_other_stream",
 ]
 FAULT_KINDS = ["truncate", "unknown_cmd", "bad_version", "bad_ftype"]
 
@@ -160,6 +161,7 @@ def generate(rng, tier, k):
         fit = 16384 + rng.choice((1, 1, 1, -3, 5, 9, 1021 + 1, 1025))
     scn = {"plan": plan, "fit_body": fit, "access": rng.choice(("bytesio", "bytesio", "path", "fileobj", "pipe")),
            "prior_failed_decode": rng.random() < 0.15, "fault": None,
+           "prior_vector": rng.choice(("123_1ulaw", "123_1pcle", "123_1pcbe")) if rng.random() < 0.05 else None,
            "dtype_req": "uint8" if (ftype == 8 and rng.random() < 0.3) else None, "hdr_blocks": rng.choice((1, 1, 2)),
            "order_seed": rng.randrange(1 << 20)}
     r = rng.random()
@@ -426,6 +428,10 @@ def execute(scn, keep_trace=False):
         res.probe("decode_after_failed_decode")
         cut = data[: max(1024 + 6, len(data) - max(8, len(data) // 3))]
         _decode(cut, "bytesio", None)
+    if scn.get("prior_vector") and "vector" not in scn:
+        # history: the same process has just decoded a stream of another sample type / channel count
+        res.probe("decode_after_other_stream")
+        _decode(open(os.path.join(_audio_dir(), scn["prior_vector"] + "_shn.sph"), "rb").read(), "bytesio", dt)
     if access == "pipe":
         res.probe("pipe")
     out, exc, nwarn = _decode(data, access, dt)
@@ -465,8 +471,10 @@ def minimise(scn, test, budget):
     scn = copy.deepcopy(scn)
     if "vector" in scn or not test(scn):
         return scn
-    for key, vals in ((("access",), ["bytesio"]), (("hdr_blocks",), [1]), (("dtype_req",), [None])):
-        scn = shrink.try_replace(scn, list(key), vals, test, budget)
+    for key, vals in ((("prior_vector",), [None]), (("prior_failed_decode",), [False]), (("access",), ["bytesio"]),
+                      (("hdr_blocks",), [1]), (("dtype_req",), [None])):
+        if scn.get(key[0]) not in (None, False):
+            scn = shrink.try_replace(scn, list(key), vals, test, budget)
 
     def with_rounds(r):
         c = copy.deepcopy(scn)
